@@ -348,6 +348,18 @@ def r5_no_shared_default_state(ck, cx, rule='R5'):
     ck.floor(rule, n, 40, 'message constructors examined')
 
 
+def r1_encode_side(ck, cx):
+    """a class whose decode() follows the specified layout while its encode() deviates from it cannot round-trip"""
+    from .c01 import r2_r3_layouts
+    sub = type(ck)(ck.pid, ck.tier)
+    sub.guard(r2_r3_layouts, sub, cx)
+    bad_dec = {f.construct.rsplit('.', 1)[0] for f in sub.findings if f.rule == 'R3'}
+    already = {f.construct.split(' / ')[0].rsplit('.', 1)[0] for f in ck.findings if f.rule == 'R1'}     # reported by the direct comparison
+    for f in sub.findings:
+        if f.rule == 'R2' and f.construct.rsplit('.', 1)[0] not in bad_dec and f.construct.rsplit('.', 1)[0] not in already:
+            ck.finding('R1', f.construct, f.detail, f.loc, f.message + ' — its decode() reads the specified layout, so decode(encode(m)) differs from m')
+
+
 def r4_dispatch_reaches_every_code(ck, cx):
     """decode(encode(m)) gives back the class of m only if the sub-function dispatch is reached for every
     sub-function code, 0 included (shared with C01 R4)"""
@@ -368,6 +380,7 @@ def run(ck, tier):
     ck.guard(r1_agreement, ck, cx)
     ck.guard(r2_r3_purity, ck, cx)
     ck.guard(r4_reclass, ck, cx)
+    ck.guard(r1_encode_side, ck, cx)
     ck.guard(r4_dispatch_reaches_every_code, ck, cx)
     ck.guard(r5_no_shared_default_state, ck, cx)
     from .c01 import r7_register_keeps_tables
